@@ -67,6 +67,10 @@ func (r *ComDoc) writeSector(sector SecID, content []byte) error {
 
 // Mark a chain of sectors as free
 func freeSectors(sat []SecID, sector SecID) {
+	if sector < 0 {
+		// empty chain
+		return
+	}
 	for {
 		nextSector := sat[sector]
 		sat[sector] = SecIDFree
